@@ -144,7 +144,7 @@ import (
 	"github.com/google/wire"
 )
 
-func InitA() bar2 {
+func InitA() num {
 	panic(wire.Build(NewA))
 }
 
@@ -223,9 +223,9 @@ func (p Pair) Method() string { return p.B }
 '''
 COPY_OTHER = '''package cp
 
-type bar2 = int
+type num = int
 
-func NewA() bar2 { return 1 }
+func NewA() num { return 1 }
 
 func refScore() int {
 	b := 10
